@@ -194,6 +194,26 @@ Definition untouched (c : cache) (o : out) : Prop := o_drv o = [] /\ o_upd o = [
 Lemma fail_untouched c e hl : untouched c (fail c e [] hl).
 Proof. repeat split. Qed.
 
+(* projections of store *)
+Lemma store_drv p x c dl hl : o_drv (store p x c dl hl) = dl.
+Proof. unfold store. destruct (p_export p); [destruct (exportable _ _)|]; reflexivity. Qed.
+Lemma store_hooks p x c dl hl : o_hooks (store p x c dl hl) = hl.
+Proof. unfold store. destruct (p_export p); [destruct (exportable _ _)|]; reflexivity. Qed.
+Lemma store_cache p x c dl hl : o_cache (store p x c dl hl) = setp c (p_name p) x.
+Proof. unfold store. destruct (p_export p); [destruct (exportable _ _)|]; reflexivity. Qed.
+(* the stored value is announced, unless it cannot be exported: then WrongType, no update, cache already written *)
+Lemma store_reply p x c dl hl :
+  (o_reply (store p x c dl hl) = None /\
+     o_upd (store p x c dl hl) = match p_export p with Some _ => [(p_name p, x)] | None => [] end /\
+     (p_export p <> None -> exportable (p_dt p) x = true)) \/
+  (o_reply (store p x c dl hl) = Some WrongType /\ o_upd (store p x c dl hl) = [] /\
+     p_export p <> None /\ exportable (p_dt p) x = false).
+Proof.
+  unfold store. destruct (p_export p) as [e|].
+  - destruct (exportable (p_dt p) x) eqn:X; [left|right]; repeat split; auto; discriminate.
+  - left. repeat split. intros N. contradiction.
+Qed.
+
 (* the write wrapper: all outcomes *)
 Lemma write_wrapper_cases p v c d :
   let o := write_wrapper p v c d in
@@ -212,39 +232,96 @@ Proof.
   destruct (dt_validate (p_dt p) v PNone) as [nv|e] eqn:Hv; [|left; eauto].
   right. destruct (Model.run_checks hook (p_checks p) (p_name p) v c) as [hl [e|]] eqn:Hr.
   - left. exists nv, hl, e. auto.
-  - right. exists nv, hl. repeat split.
+  - right. exists nv, hl. split; [reflexivity|]. split; [reflexivity|].
     destruct (p_haswrite p); [right|left; auto]. split; [reflexivity|].
     destruct (drv_norm d) as [| |r|e] eqn:Hd.
-    + repeat split. right; right. exists v. split; [reflexivity|]. left; auto.
-    + repeat split. right; left. repeat split.
+    + rewrite store_drv, store_hooks. split; [reflexivity|]. split; [reflexivity|].
+      right; right. exists v. split; [reflexivity|]. left; auto.
+    + split; [reflexivity|]. split; [reflexivity|]. right; left. repeat split.
     + destruct (dt_validate (p_dt p) r PNone) as [x|e] eqn:Hr2.
-      * repeat split. right; right. exists x. split; [reflexivity|]. right. eauto.
-      * repeat split. left. repeat split. cbn. discriminate.
-    + repeat split. left. repeat split. cbn. discriminate.
+      * rewrite store_drv, store_hooks. split; [reflexivity|]. split; [reflexivity|].
+        right; right. exists x. split; [reflexivity|]. right. eauto.
+      * split; [reflexivity|]. split; [reflexivity|]. left. repeat split. cbn. discriminate.
+    + split; [reflexivity|]. split; [reflexivity|]. left. repeat split. cbn. discriminate.
 Qed.
 
-Lemma store_reply p x c dl hl : o_reply (store p x c dl hl) = None.
-Proof. reflexivity. Qed.
+(* an error out of the write wrapper leaves cache and subscribers alone -- except when the value was already stored and
+   then turned out not to be exportable (finding nested-optional-struct-stored-then-error) *)
+Definition stored_unexportable (p : param) (c : cache) (o : out) : Prop :=
+  exists x, exportable (p_dt p) x = false /\ o_reply o = Some WrongType /\ o_upd o = [] /\
+            o_cache o = setp c (p_name p) x.
 
-Lemma write_wrapper_error_clean p v c d :
-  o_reply (write_wrapper p v c d) <> None -> o_upd (write_wrapper p v c d) = [] /\ o_cache (write_wrapper p v c d) = c.
+Lemma write_wrapper_error p v c d :
+  o_reply (write_wrapper p v c d) <> None ->
+  (o_upd (write_wrapper p v c d) = [] /\ o_cache (write_wrapper p v c d) = c) \/
+  stored_unexportable p c (write_wrapper p v c d).
 Proof.
   pose proof (write_wrapper_cases p v c d) as H. cbn zeta in H.
-  destruct H as [(e & _ & ->)|[(nv & hl & e & _ & _ & ->)|(nv & hl & _ & _ & [[_ ->]|(_ & _ & _ & H)])]]; intros R.
-  - split; reflexivity.
-  - split; reflexivity.
-  - exfalso. apply R. reflexivity.
-  - destruct H as [(_ & U & C)|[(_ & U & C & _)|(x & Hx & _)]]; auto. exfalso. apply R. rewrite Hx. reflexivity.
+  assert (S : forall x dl hl, o_reply (store p x c dl hl) <> None -> stored_unexportable p c (store p x c dl hl)).
+  { intros x dl hl R. destruct (store_reply p x c dl hl) as [(N & _)|(N & U & _ & X)]; [contradiction|].
+    exists x. rewrite store_cache. auto. }
+  destruct H as [(e & _ & ->)|[(nv & hl & e & _ & _ & ->)|(nv & hl & _ & _ & [[_ Hs]|(_ & _ & _ & H)])]]; intros R.
+  - left. split; reflexivity.
+  - left. split; reflexivity.
+  - right. rewrite Hs in *. apply S, R.
+  - destruct H as [(_ & U & C)|[(_ & U & C & _)|(x & Hx & _)]]; auto.
+    right. rewrite Hx in *. apply S, R.
 Qed.
 
-(* success of the write wrapper changes at most the written parameter, and announces exactly what it stores *)
+(* the write wrapper changes at most the written parameter *)
 Lemma write_wrapper_frame p v c d n :
   n <> p_name p -> getp (o_cache (write_wrapper p v c d)) n = getp c n.
 Proof.
   intros N. pose proof (write_wrapper_cases p v c d) as H. cbn zeta in H.
   destruct H as [(e & _ & ->)|[(nv & hl & e & _ & _ & ->)|(nv & hl & _ & _ & [[_ ->]|(_ & _ & _ & H)])]]; try reflexivity.
-  - cbn. apply getp_setp_other, N.
-  - destruct H as [(_ & _ & ->)|[(_ & _ & -> & _)|(x & -> & _)]]; try reflexivity. cbn. apply getp_setp_other, N.
+  - rewrite store_cache. apply getp_setp_other, N.
+  - destruct H as [(_ & _ & ->)|[(_ & _ & -> & _)|(x & -> & _)]]; try reflexivity.
+    rewrite store_cache. apply getp_setp_other, N.
+Qed.
+
+(* a successful write wrapper: nothing changed (Done), or one value stored, announced and exportable *)
+Lemma write_wrapper_success p v c d :
+  o_reply (write_wrapper p v c d) = None ->
+  (o_upd (write_wrapper p v c d) = [] /\ o_cache (write_wrapper p v c d) = c) \/
+  (exists x, o_cache (write_wrapper p v c d) = setp c (p_name p) x /\
+             o_upd (write_wrapper p v c d) = match p_export p with Some _ => [(p_name p, x)] | None => [] end /\
+             (p_export p <> None -> exportable (p_dt p) x = true)).
+Proof.
+  pose proof (write_wrapper_cases p v c d) as H. cbn zeta in H.
+  assert (S : forall x dl hl, o_reply (store p x c dl hl) = None ->
+     exists y, o_cache (store p x c dl hl) = setp c (p_name p) y /\
+       o_upd (store p x c dl hl) = match p_export p with Some _ => [(p_name p, y)] | None => [] end /\
+       (p_export p <> None -> exportable (p_dt p) y = true)).
+  { intros x dl hl R. destruct (store_reply p x c dl hl) as [(_ & U & X)|(N & _)]; [|congruence].
+    exists x. rewrite store_cache. auto. }
+  destruct H as [(e & _ & ->)|[(nv & hl & e & _ & _ & ->)|(nv & hl & _ & _ & [[_ Hs]|(_ & _ & _ & H)])]]; intros R;
+    try discriminate.
+  - right. rewrite Hs in *. apply S, R.
+  - destruct H as [(N & _)|[(_ & U & C & _)|(x & Hx & _)]]; [contradiction|auto|].
+    right. rewrite Hx in *. apply S, R.
+Qed.
+
+(* the reply built from the cache *)
+Lemma reply_export_same p o : o_drv (reply_export p o) = o_drv o /\ o_hooks (reply_export p o) = o_hooks o /\
+  o_upd (reply_export p o) = o_upd o /\ o_cache (reply_export p o) = o_cache o.
+Proof.
+  unfold reply_export. destruct (o_reply o); [auto|].
+  destruct (getp (o_cache o) (p_name p)) as [x|]; [|auto]. destruct (exportable (p_dt p) x); auto.
+Qed.
+Lemma reply_export_none p o : o_reply (reply_export p o) = None -> o_reply o = None.
+Proof.
+  unfold reply_export. destruct (o_reply o) eqn:R; [rewrite R; auto|reflexivity].
+Qed.
+Lemma reply_export_err p o : o_reply o <> None -> reply_export p o = o.
+Proof. unfold reply_export. destruct (o_reply o); [reflexivity|contradiction]. Qed.
+Lemma reply_export_cases p o : o_reply o = None ->
+  reply_export p o = o \/
+  (exists x, getp (o_cache o) (p_name p) = Some x /\ exportable (p_dt p) x = false /\
+             o_reply (reply_export p o) = Some WrongType).
+Proof.
+  intros R. unfold reply_export. rewrite R.
+  destruct (getp (o_cache o) (p_name p)) as [x|]; [|auto].
+  destruct (exportable (p_dt p) x) eqn:X; [auto|]. right. exists x. auto.
 Qed.
 
 Definition ename (rq : request) : str := match rq_acc rq with Some a => a | None => s_target end.
@@ -275,13 +352,18 @@ Proof.
   2: { intros [H|H]; [exfalso; apply H; reflexivity|discriminate]. }
   destruct (lookup_export_in _ _ _ Hl) as (He & Hi & Hx). cbn in Hx.
   apply str_eqb_eq in Hm.
+  destruct (reply_export_same p (write_wrapper p v c (rq_drv rq))) as (Ed & _).
+  rewrite Ed. intros Hyp.
+  assert (Hyp' : o_drv (write_wrapper p v c (rq_drv rq)) <> [] \/ o_reply (write_wrapper p v c (rq_drv rq)) = None).
+  { destruct Hyp as [H|H]; [left; exact H|right; apply (reply_export_none p), H]. }
+  clear Hyp. revert Hyp'.
   pose proof (write_wrapper_cases p v c (rq_drv rq)) as H. cbn zeta in H.
   destruct H as [(e & _ & ->)|[(nv & hl & e & _ & _ & ->)|(nv & hl & Hv & Hk & H)]].
   - intros [H|H]; [exfalso; apply H; reflexivity|discriminate].
   - intros [H|H]; [exfalso; apply H; reflexivity|discriminate].
   - intros _. exists p, v, nv. repeat split; auto.
     + unfold checks_pass. rewrite Hk. reflexivity.
-    + destruct H as [[Hh ->]|(Hh & Hd & _)]; rewrite Hh; [reflexivity|exact Hd].
+    + destruct H as [[Hh ->]|(Hh & Hd & _)]; rewrite Hh; [apply store_drv|exact Hd].
 Qed.
 
 (* ------------------------------------------------------------------ change: refusal, first failing test decides *)
@@ -326,16 +408,29 @@ Proof.
 Qed.
 
 (* ------------------------------------------------------------------ every error reply leaves cache and subscribers alone *)
-Lemma handle_change_error_clean md c rq :
+Lemma handle_change_error md c rq :
   o_reply (handle_change md c rq) <> None ->
-  o_upd (handle_change md c rq) = [] /\ o_cache (handle_change md c rq) = c.
+  (o_upd (handle_change md c rq) = [] /\ o_cache (handle_change md c rq) = c) \/
+  (exists p, lookup_export md (ename rq) = Some (AParam p) /\ stored_unexportable p c (handle_change md c rq)).
 Proof.
-  unfold Model.handle_change. cbn zeta.
-  destruct (negb (str_eqb (rq_mod rq) (md_name md))); [split; reflexivity|].
-  destruct (lookup_export md _) as [[p|cm]|]; try (split; reflexivity).
-  destruct (p_constant p); [split; reflexivity|]. destruct (p_readonly p); [split; reflexivity|].
-  destruct (wire E (p_dt p) (rq_data rq) _) as [v|e]; [|split; reflexivity].
-  apply write_wrapper_error_clean.
+  unfold Model.handle_change. cbn zeta. fold (ename rq).
+  destruct (negb (str_eqb (rq_mod rq) (md_name md))); [left; split; reflexivity|].
+  destruct (lookup_export md (ename rq)) as [[p|cm]|] eqn:Hl; try (left; split; reflexivity).
+  destruct (p_constant p); [left; split; reflexivity|]. destruct (p_readonly p); [left; split; reflexivity|].
+  destruct (wire E (p_dt p) (rq_data rq) _) as [v|e]; [|left; split; reflexivity].
+  set (w := write_wrapper p v c (rq_drv rq)).
+  destruct (reply_export_same p w) as (_ & _ & Eu & Ec). rewrite Eu, Ec.
+  destruct (o_reply w) as [cl|] eqn:R.
+  - (* the wrapper itself failed *)
+    assert (R' : o_reply w <> None) by (rewrite R; discriminate).
+    rewrite (reply_export_err p w R'). intros _.
+    destruct (write_wrapper_error p v c (rq_drv rq) R') as [H|H]; [left; exact H|right; exists p; split; [reflexivity|exact H]].
+  - (* the wrapper succeeded, the reply could not be built: only possible when nothing was stored *)
+    intros N. destruct (reply_export_cases p w R) as [H|(x & G & X & _)]; [rewrite H, R in N; contradiction|].
+    destruct (write_wrapper_success p v c (rq_drv rq) R) as [H|(y & C & _ & Y)]; [left; exact H|].
+    exfalso. fold w in C. rewrite C, getp_setp_same in G. injection G as <-.
+    destruct (lookup_export_in _ _ _ Hl) as (_ & _ & Hx). cbn in Hx.
+    rewrite Y in X; [discriminate|]. rewrite Hx. discriminate.
 Qed.
 
 Lemma call_cmd_clean cm a c d : o_upd (call_cmd cm a c d) = [] /\ o_cache (call_cmd cm a c d) = c /\
@@ -363,12 +458,24 @@ Proof.
   destruct (lookup_export md en) as [[p|cm]|]; try (split; reflexivity). apply do_cmd_clean.
 Qed.
 
-Theorem error_clean md c rq :
-  o_reply (handle md c rq) <> None -> o_upd (handle md c rq) = [] /\ o_cache (handle md c rq) = c.
+Theorem error_clean_except_unexportable md c rq :
+  o_reply (handle md c rq) <> None ->
+  (o_upd (handle md c rq) = [] /\ o_cache (handle md c rq) = c) \/
+  (rq_act rq = AChange /\ exists p, lookup_export md (ename rq) = Some (AParam p) /\
+     stored_unexportable p c (handle md c rq)).
 Proof.
   unfold Model.handle. destruct (rq_act rq).
-  - apply handle_change_error_clean.
-  - intros _. apply do_clean.
+  - intros R. destruct (handle_change_error md c rq R) as [H|H]; [left; exact H|right; split; [reflexivity|exact H]].
+  - intros _. left. apply do_clean.
+Qed.
+
+(* values that always export: no struct below the top level of the type can lack a member *)
+Theorem error_clean md c rq :
+  (forall p x, In (AParam p) (md_acc md) -> exportable (p_dt p) x = true) ->
+  o_reply (handle md c rq) <> None -> o_upd (handle md c rq) = [] /\ o_cache (handle md c rq) = c.
+Proof.
+  intros X R. destruct (error_clean_except_unexportable md c rq R) as [H|(_ & p & Hl & x & Hx & _)]; [exact H|].
+  destruct (lookup_export_in _ _ _ Hl) as (_ & Hi & _). rewrite (X p x Hi) in Hx. discriminate.
 Qed.
 
 (* ------------------------------------------------------------------ do: safety and refusal *)
